@@ -1,5 +1,5 @@
 """property id -> (spec, harness group)"""
-from . import props_alg, props_alias, props_lin, props_est, props_eig
+from . import props_alg, props_alias, props_lin, props_est, props_eig, props_sim
 
 SPECS = {}
 for pid, spec in props_alg.SPECS.items():
@@ -12,4 +12,6 @@ for pid, spec in props_est.SPECS.items():
     SPECS[pid] = (spec, props_est.GROUP)
 for pid, spec in props_eig.SPECS.items():
     SPECS[pid] = (spec, props_eig.GROUP)
+for pid, spec in props_sim.SPECS.items():
+    SPECS[pid] = (spec, props_sim.GROUP)
 NOT_CLAIMED = {}
